@@ -330,6 +330,12 @@ pub fn check_ttl(h: &Hist, want: &[&str]) -> TtlOutcome {
                 if c05 && !over_cap {
                     let mut keep = Vec::new();
                     for (e, hi) in must_reclaim.drain(..) {
+                        if m.ambiguous.contains(&e.val.key) {
+                            // the index may meanwhile be held (and charged) by a write whose fate the
+                            // model does not know: no claim
+                            m.zombies.retain(|z| z.val.id != e.val.id);
+                            continue;
+                        }
                         let due = hi.max(last_fault_now) + SEC + cleanup;
                         // a faulty configuration only promises reclamation once faults have stopped
                         let strict = fault_free || faults_off_seen;
@@ -343,19 +349,21 @@ pub fn check_ttl(h: &Hist, want: &[&str]) -> TtlOutcome {
                             expired_seen += 1;
                             let n_ev = evicts.iter().filter(|c| c.kind == CbKind::Evict).count();
                             if evicts.len() != 1 || n_ev != 1 {
-                                out.violations.push(viol(
+                                out.violations.push(violk(
                                     "C05",
                                     "R2-callback-count",
                                     cp.seq,
+                                    e.val.key,
                                     "reclaimed expired entry not handed to on_evict exactly once",
                                     format!("value {:?}: callbacks {:?}", e.val, evicts.iter().map(|c| (c.kind, c.seq)).collect::<Vec<_>>()),
                                 ));
-                            } else if let Some(ch) = charge_of.get(&e.val.id) {
+                            } else if let Some(ch) = charge_at(h, h.index_of(e.val.key), evicts[0].seq).as_ref().or(charge_of.get(&e.val.id)) {
                                 if evicts[0].cost != *ch && plan.cfg.callback == CallbackMode::Full {
-                                    out.violations.push(viol(
+                                    out.violations.push(violk(
                                         "C05",
                                         "R2-callback-cost",
                                         cp.seq,
+                                        e.val.key,
                                         "on_evict cost differs from the charged cost",
                                         format!("value {:?}: on_evict cost {} charged {}", e.val, evicts[0].cost, ch),
                                     ));
@@ -365,10 +373,11 @@ pub fn check_ttl(h: &Hist, want: &[&str]) -> TtlOutcome {
                             continue;
                         }
                         if strict && t >= due {
-                            out.violations.push(viol(
+                            out.violations.push(violk(
                                 "C05",
                                 "R2-not-reclaimed",
                                 cp.seq,
+                                e.val.key,
                                 if fault_free { "expired entry not reclaimed within bucket width + cleanup interval (fault-free)" } else { "expired entry not reclaimed after faults stopped" },
                                 format!(
                                     "checkpoint {} t={}: value {:?} deadline<= {} (+1s+{}ms = {}), resident={} charged={} cleanup_ms={}",
@@ -404,10 +413,11 @@ pub fn check_ttl(h: &Hist, want: &[&str]) -> TtlOutcome {
                 let early = if ttl_ns == 0 { true } else { c.now < o.inv_now + ttl_ns };
                 if early && c.task.starts_with("processor") {
                     let prop = if c05 { "C05" } else { "C04" };
-                    out.violations.push(viol(
+                    out.violations.push(violk(
                         prop,
                         "R3-evicted-unexpired",
                         c.seq,
+                        v.key,
                         if ttl_ns == 0 { "entry without TTL handed to on_evict below capacity" } else { "entry evicted before its TTL elapsed below capacity" },
                         format!("value {:?} ttl={}ns inserted at [{},{}] evicted at t={} (item exp created={} ttl={})", v, ttl_ns, o.inv_now, o.ret_now, c.now, c.created_ns, c.ttl_ns),
                     ));
@@ -420,7 +430,7 @@ pub fn check_ttl(h: &Hist, want: &[&str]) -> TtlOutcome {
         // value / TTL / presence violations on keys touched by insert_if_present or a veto are C09's
         let mut extra = Vec::new();
         for v in out.violations.iter() {
-            if (v.prop == "C03" || v.prop == "C04") && v.key.map_or(false, |k| c09_keys.contains(&k)) {
+            if (v.prop == "C03" || v.prop == "C04" || v.prop == "C05") && v.key.map_or(false, |k| c09_keys.contains(&k)) {
                 let mut w = v.clone();
                 w.prop = "C09".into();
                 w.rule = format!("{}-after-conditional-write", v.rule);
@@ -593,4 +603,22 @@ fn ttl_check(h: &Hist, out: &mut TtlOutcome, m: &Model, k: u64, o: &OpRec, t: Op
 fn vetoed_in(h: &Hist, o: &OpRec) -> bool {
     let Some(v) = o.val else { return false };
     h.evs.iter().any(|e| e.seq > o.inv_seq && e.seq < o.ret_seq_or_max() && matches!(&e.kind, EvKind::Validate { curr, ok: false, .. } if curr.id == v.id))
+}
+
+/// the charge the policy held for `index` just before sequence number `seq`, from the
+/// admission and cost-update observers
+fn charge_at(h: &Hist, index: u64, seq: u64) -> Option<i64> {
+    let mut cur = None;
+    for (e, o) in h.obs() {
+        if e.seq >= seq {
+            break;
+        }
+        match o {
+            ObsEv::AddExit { key, cost, added: true, .. } if *key == index => cur = Some(*cost),
+            ObsEv::CostUpdate { key, cost, .. } if *key == index => cur = Some(*cost),
+            ObsEv::PolicyCleared => cur = None,
+            _ => {}
+        }
+    }
+    cur
 }
